@@ -77,6 +77,8 @@ pub fn run(outdir: &str, seed: u64, thorough: bool) -> serde_json::Value {
         "SELECT t.age AS a FROM users AS t UNION ALL SELECT o.user_id AS b FROM orders AS o", "SELECT t.age AS a, t.id AS i FROM users AS t UNION SELECT o.user_id AS b, o.id AS j FROM orders AS o",
         "SELECT t.age AS a FROM users AS t EXCEPT SELECT o.user_id AS b FROM orders AS o", "SELECT x.a AS c FROM (SELECT t.age AS a FROM users AS t INTERSECT SELECT o.user_id AS b FROM orders AS o) AS x",
         "SELECT t.city AS c, COUNT(DISTINCT t.age) AS a, SUM(DISTINCT t.income) AS b, COUNT(t.id) AS n FROM users AS t GROUP BY t.city"];
+    // ... and the constructs the tree generator does not produce (the templates of C08)
+    let targeted: Vec<String> = targeted.iter().map(|q| q.to_string()).chain(crate::c08::templates().into_iter().filter(|(n, _)| *n != "string-literal-adjacent-quotes").map(|(_, q)| q.replace("{k}", "4"))).collect();
     let mut made = 0; let mut attempts = 0;
     while made < n && attempts < n * 20 {
         attempts += 1;
@@ -123,6 +125,8 @@ pub fn run(outdir: &str, seed: u64, thorough: bool) -> serde_json::Value {
                 } else if s1 != s3 {
                     st.violation(json!({"kind":"reparsed-schema-types-differ","class":class,"query":sql,"schema":s1.iter().zip(s3.iter()).filter(|(a, b)| a != b).take(3).collect::<Vec<_>>(),"rendered":text1.chars().take(3000).collect::<String>()}));
                 }
+                // the declared size is part of the meaning: a LIMIT / OFFSET window repeated by the rendering changes it
+                if rel1.size() != rel3.size() { st.violation(json!({"kind":"reparsed-size-differs","class":class,"query":sql,"size":rel1.size().to_string(),"reparsed":rel3.size().to_string(),"rendered":text1.chars().take(600).collect::<String>()})); }
                 let text3 = render(&rel3);
                 if r.chance(1, 2) {
                     let data = gen_data(&mut r, &w.specs, 8);
@@ -130,7 +134,9 @@ pub fn run(outdir: &str, seed: u64, thorough: bool) -> serde_json::Value {
                     if let (Ok((_, a)), Ok((_, b))) = (db.query(&text1), db.query(&text3)) {
                         st.bump("executed_pairs");
                         // ORDER BY / LIMIT windows are compared as bags only when the window is total (left to C08)
-                        if !sql.to_uppercase().contains("LIMIT") && class != "random" && bag(&a) != bag(&b) { st.violation(json!({"kind":"reparsed-query-returns-other-rows","class":class,"query":sql})); }
+                        // (the number of rows of a window does not depend on the order)
+                        if class != "random" && a.len() != b.len() { st.violation(json!({"kind":"reparsed-query-returns-other-row-count","class":class,"query":sql,"rows":[a.len(), b.len()]})); }
+                        else if !sql.to_uppercase().contains("LIMIT") && class != "random" && bag(&a) != bag(&b) { st.violation(json!({"kind":"reparsed-query-returns-other-rows","class":class,"query":sql})); }
                     }
                 }
                 if let Some(rel4) = compile(&w, &text3) { if schema_sig(&rel4) != s3 { st.violation(json!({"kind":"second-reparse-schema-differs","class":class,"query":sql})); } }
